@@ -184,7 +184,7 @@ def harnesses(tier):
     hs.append(Harness('relations_map', 'idx', h_relmap, jobs=[dict(n=N, which=w) for w in range(4)], testgen=gen_rel(N),
                       desc='RelationsMapStash::add x%d with symbolic 64-bit (member, parent) pairs (mixes of ids below and above 2^32), each index builder, lookup of a symbolic id: exactly the recorded values, no duplicates' % N,
                       bounds='%d pairs' % N, wall=900))
-    hs.append(Harness('item_stash', 'idx', h_stash, jobs=[dict(n=3, gc1=a, gc2=b) for a in (0, 1) for b in (0, 1)],
+    hs.append(Harness('item_stash', 'idx', h_stash, jobs=[dict(n=3, gc1=a, gc2=b) for a in (0, 1, 2) for b in (0, 1)],
                       desc='ItemStash: add 3 items of different sizes, remove any subset, optional garbage_collect, add another, remove any subset, optional garbage_collect: every live handle resolves to its unchanged item, counts and reclaimed space match',
-                      bounds='4 items, all removal subsets, 2 collection points', testgen=lambda rnd: [dict(id0=1, id1=2, id2=3, id3=4, mask1=rnd.getrandbits(3), mask2=rnd.getrandbits(4), ulen=rnd.getrandbits(3)) for _ in range(8)], sanitize=True))
+                      bounds='4 items, all removal subsets, 2 collection points (explicit, or triggered inside add_item by raising the removal counter past its threshold)', testgen=lambda rnd: [dict(id0=1, id1=2, id2=3, id3=4, mask1=rnd.getrandbits(3), mask2=rnd.getrandbits(4), ulen=rnd.getrandbits(3)) for _ in range(8)], sanitize=True))
     return hs
